@@ -127,8 +127,62 @@ func c17Agree(name string, args []string, r rv, j map[string]any) string {
 		}
 		ri, ok1 := idsOfRESP(r)
 		ji, ok2 := idsOfJSON(j)
-		if ok1 && ok2 && strings.Join(ri, "\x00") != strings.Join(ji, "\x00") {
-			return fmt.Sprintf("ids differ: RESP %v, JSON %v", ri, ji)
+		// JSON cannot carry invalid UTF-8: such bytes arrive as U+FFFD
+		if ok1 && ok2 && strings.Join(ri, "\x00") != strings.Join(ji, "\x00") && strings.ToValidUTF8(strings.Join(ri, "\x00"), "\uFFFD") != strings.Join(ji, "\x00") {
+			return fmt.Sprintf("ids differ: RESP %q, JSON %q", ri, ji)
+		}
+		// per-item fields: the names (and values) RESP lists for an item are the non-zero
+		// entries of the JSON item's value array under the reply's "fields" header
+		if hdr, hasHdr := j["fields"].([]any); ok1 && (hasHdr || true) {
+			for _, k := range []string{"objects", "points", "bounds", "hashes"} {
+				arr, ok := j[k].([]any)
+				if !ok {
+					continue
+				}
+				for i, e := range arr {
+					if i >= len(r.A[1].A) {
+						break
+					}
+					jf := map[string]string{}
+					if m, isObj := e.(map[string]any); isObj {
+						if vals, ok := m["fields"].([]any); ok {
+							for vi, v := range vals {
+								if vi < len(hdr) && fmt.Sprint(v) != "0" {
+									jf[fmt.Sprint(hdr[vi])] = fmt.Sprint(v)
+								}
+							}
+						}
+					}
+					rf := map[string]string{}
+					re := r.A[1].A[i]
+					if re.K == '*' {
+						for pi, part := range re.A {
+							// [id, object | [lat lon] | [[..][..]] | hash, [name value ...], distance?]
+							if pi >= 2 && part.K == '*' && len(part.A)%2 == 0 && len(part.A) > 0 && part.A[0].K == '$' {
+								for q := 0; q+1 < len(part.A); q += 2 {
+									rf[strings.ToValidUTF8(part.A[q].S, "\uFFFD")] = part.A[q+1].S
+								}
+							}
+						}
+					}
+					for n, v := range rf {
+						jv, has := jf[n]
+						if !has {
+							return fmt.Sprintf("item %d: RESP lists field %q=%s, the JSON reply (header %v) does not", i, n, v, hdr)
+						}
+						a, e1 := strconv.ParseFloat(v, 64)
+						b, e2 := strconv.ParseFloat(jv, 64)
+						if (e1 == nil && e2 == nil && a != b) || ((e1 != nil || e2 != nil) && v != jv) {
+							return fmt.Sprintf("item %d: field %q is %s in RESP and %s in JSON", i, n, v, jv)
+						}
+					}
+					for n, v := range jf {
+						if _, has := rf[n]; !has {
+							return fmt.Sprintf("item %d: JSON lists field %q=%s, RESP does not", i, n, v)
+						}
+					}
+				}
+			}
 		}
 		if ok1 && r.A[0].K == ':' && fmt.Sprint(j["cursor"]) != r.A[0].S {
 			return fmt.Sprintf("cursor differs: RESP %s, JSON %v", r.A[0].S, j["cursor"])
@@ -272,6 +326,14 @@ func c17Setup(c *Cli, state string) map[string]string {
 		c.Do("SET", "k1", "unié世", "STRING", "café 世界 </script>")
 		c.Do("SET", "k%d", "100%", "FIELD", "f%s", "5", "FIELD", "g%", "50%v", "STRING", "%!s(MISSING)%%")
 		c.Do("SET", "k%d", "%x", "FIELD", "f%s", "7", "POINT", "1", "2")
+		// ids / keys / values with control characters, DEL, NUL and invalid UTF-8
+		c.Do("SET", "kc\x01\x1b", "i\x7f\x00d", "FIELD", "f\x02", "3", "STRING", "v\x1b[0m\x7f")
+		c.Do("SET", "kc\x01\x1b", "bad\xffutf", "FIELD", "g\x0b", "4", "POINT", "1", "2")
+		// objects whose field names differ, so that the last object of a LIMIT page brings a new name
+		c.Do("SET", "kf", "a", "FIELD", "f1", "1", "POINT", "1", "1")
+		c.Do("SET", "kf", "b", "FIELD", "f2", "2", "POINT", "1", "2")
+		c.Do("SET", "kf", "c", "FIELD", "f3", "3", "POINT", "1", "3")
+		c.Do("SET", "kf", "d", "FIELD", "f0", "4", "FIELD", "f4", "5", "POINT", "1", "4")
 		c.Do("SETCHAN", `ch"q`, "META", `m"k`, `m\v`, "NEARBY", `k"q`, "FENCE", "POINT", "1", "2", "100")
 		return sha
 	}
@@ -287,6 +349,8 @@ func c17Extra(state string) [][]string {
 		{"TYPE", k}, {"BOUNDS", k}, {"EXISTS", k, id}, {"TTL", k, id}, {"STATS", k}, {"CHANS", "*"}, {"HOOKS", "*"}, {"SCAN", k, "MATCH", `id"*`, "IDS"}, {"NEARBY", k, "POINT", "1", "2"},
 		{"GET", "k1", "unié世"}, {"SEARCH", "k1"}, {"JGET", k, id}, {"PDEL", k, `i*`}, {"GET", "no\"such", "x"}, {"GET", k, "no\"id"}, {"FSET", k, "no\"id", "f", "1"},
 		{"BOGUS\"CMD", "x"}, {"SET", k, "x", "POINT", "bad\"num", "1"}, {"DELCHAN", `ch"q`},
+		{"SCAN", "kc\x01\x1b"}, {"SCAN", "kc\x01\x1b", "IDS"}, {"GET", "kc\x01\x1b", "i\x7f\x00d", "WITHFIELDS"}, {"GET", "kc\x01\x1b", "bad\xffutf"}, {"KEYS", "kc*"}, {"GET", "kc\x01\x1b", "no\x1bsuch"}, {"GET", "no\x7fkey", "x"}, {"ECHO\x01", "x"}, {"TYPE", "kc\x01\x1b"}, {"SEARCH", "kc\x01\x1b"},
+		{"SCAN", "kf", "LIMIT", "1"}, {"SCAN", "kf", "LIMIT", "2"}, {"SCAN", "kf", "LIMIT", "3"}, {"SCAN", "kf", "CURSOR", "1", "LIMIT", "2"}, {"NEARBY", "kf", "LIMIT", "2", "POINT", "1", "1"}, {"WITHIN", "kf", "LIMIT", "3", "BOUNDS", "0", "0", "5", "5"}, {"SCAN", "kf", "LIMIT", "2", "POINTS"},
 		{"SCAN", "k%d"}, {"SCAN", "k%d", "IDS"}, {"SEARCH", "k%d"}, {"GET", "k%d", "100%", "WITHFIELDS"}, {"GET", "k%d", "%x", "WITHFIELDS", "POINT"}, {"FGET", "k%d", "100%", "g%"}, {"NEARBY", "k%d", "POINT", "1", "2"},
 		{"GET", "k%d", "no%sid"}, {"GET", "no%dkey", "x"}, {"BOGUS%s"}, {"TYPE", "k%d"}, {"STATS", "k%d"}, {"SET", "k%d", "y", "POINT", "bad%d", "1"}}
 }
